@@ -19,7 +19,15 @@ if os.path.isdir(out):
             shutil.copy(os.path.join(out, f), os.path.join(dst, f))
 else:  # re-verification of a kept seed
     meta = json.load(open(os.path.join(dst, "meta.json")))
+    _hist = meta.get("history", [])
+    if meta.get("checks"):
+        _hist = _hist + [dict(verified_at=meta.get("verified_at"), checks=meta["checks"], caught=meta.get("caught"), caught_with_failing_input=meta.get("caught_with_failing_input"))]
+    _first = meta.get("first_shot") or (_hist[0] if _hist else None)
     meta = {k: meta[k] for k in ("property", "summary", "needs", "demo", "tests_run") if k in meta}
+    if _first:
+        meta["first_shot"] = _first
+    if _hist:
+        meta["history"] = _hist
     out = dst
 pid = meta["property"]
 patch = os.path.join(dst, "patch.diff")
@@ -113,5 +121,7 @@ if ok:
     finally:
         sh("git -C /repo worktree remove --force %s" % wt2)
         sh("rm -rf %s" % vcopy)
+if "first_shot" not in record and record.get("checks"):
+    record["first_shot"] = dict(verified_at=record.get("verified_at"), checks=record["checks"], caught=record.get("caught"), caught_with_failing_input=record.get("caught_with_failing_input"))
 json.dump(record, open(os.path.join(dst, "meta.json"), "w"), indent=1)
 print(json.dumps({k: record.get(k) for k in ("seed_id", "property", "applies", "builds", "demo_fails_with_patch", "demo_passes_without_patch", "stable_tests_not_passing_with_patch", "confirmed", "caught", "checks")}, indent=1))
